@@ -29,7 +29,16 @@ func commitStoreTransactions(r *an.Run) {
 			term an.Term
 		}
 		legacyGet string
+		// gate is the fact that keeps a borked channel out of the
+		// transition (every write lies below it)
+		gate an.Fact
 	}
+	// AppendRemoteCommitChain and AdvanceCommitChainTail ask isChannelBorked;
+	// UpdateChannelCommitment, which also writes the fetched copy's chanInfo
+	// back, tests the status of the copy it fetched in the transaction itself
+	notBorked := an.Truth(an.ResultOf(an.CallTo("channeldb.isChannelBorked", nil, an.Param(0), canonTerm(`^channeldb\.fetchChanBucketRw\(`)), 0), false, "!isBorked")
+	diskDefault := an.Cmp(an.CallNamed("ChannelStatusForStore", canonTerm(c02DiskCopyOfUpdate)), an.EQ, an.PkgVar("channeldb", "ChanStatusDefault"),
+		"status of the channel fetched in this transaction == ChanStatusDefault")
 	put := func(key string) an.Term {
 		return an.CallNamed("Put", nil, an.PkgVar("channeldb", key))
 	}
@@ -47,13 +56,13 @@ func commitStoreTransactions(r *an.Run) {
 			{"putChanCommitment", an.CallTo("channeldb.putChanCommitment", nil, nil, nil, an.BoolConst(true))},
 			{"Put(unsignedAckedUpdatesKey)", put("unsignedAckedUpdatesKey")},
 			{"Put(lastWasRevokeKey)", put("lastWasRevokeKey")},
-		}, legacy: []w{{"Put(remoteUnsignedLocalUpdatesKey)", put("remoteUnsignedLocalUpdatesKey")}}, legacyGet: "remoteUnsignedLocalUpdatesKey"},
+		}, legacy: []w{{"Put(remoteUnsignedLocalUpdatesKey)", put("remoteUnsignedLocalUpdatesKey")}}, legacyGet: "remoteUnsignedLocalUpdatesKey", gate: diskDefault},
 		{fn: "channeldb.ChannelStateDB.AppendRemoteCommitChain", writes: []w{
 			{"AckAddHtlcs", call("channeldb.ChannelPackager.AckAddHtlcs")},
 			{"AckSettleFails", call("channeldb.ChannelPackager.AckSettleFails")},
 			{"Put(lastWasRevokeKey)", put("lastWasRevokeKey")},
 			{"Put(commitDiffKey)", put("commitDiffKey")},
-		}},
+		}, gate: notBorked},
 		{fn: "channeldb.ChannelStateDB.AdvanceCommitChainTail", writes: []w{
 			{"putChanRevocationState", call("channeldb.putChanRevocationState")},
 			{"putChanCommitment(remote)", an.CallTo("channeldb.putChanCommitment", nil, nil, nil, an.BoolConst(false))},
@@ -65,10 +74,10 @@ func commitStoreTransactions(r *an.Run) {
 			// exist yet (before our first revocation): see known_findings
 			// "fixed" and DESIGN.md section 9
 			{"Put(remoteUnsignedLocalUpdatesKey)", put("remoteUnsignedLocalUpdatesKey")},
-		}},
+		}, gate: notBorked},
 	}
 	r.Obl("one-transaction-complete-write-set", "PATH",
-		"each state transition of the store runs exactly one kvdb.Update; inside its closure every required durable write is on every nil-error return and is reachable only below !isBorked; writes the legacy early return may skip are required on every other success return; every direct Put stores the bytes of a local buffer filled by exactly one successful serializer call with the value that key holds (no buffer stored twice, none filled and dropped), and the helper writes receive the transition's own channel / commitment / diff / forwarding package",
+		"each state transition of the store runs exactly one kvdb.Update; inside its closure every required durable write is on every nil-error return and is reachable only below the transition's borked gate (the false answer of isChannelBorked(the channel, the channel's bucket) in AppendRemoteCommitChain and AdvanceCommitChainTail; in UpdateChannelCommitment the status of the channel fetched from the bucket in this very transaction compared equal to ChanStatusDefault); writes the legacy early return may skip are required on every other success return; every direct Put stores the bytes of a local buffer filled by exactly one successful serializer call with the value that key holds (no buffer stored twice, none filled and dropped), and the helper writes receive the transition's own channel / commitment / diff / forwarding package (putChanInfo of UpdateChannelCommitment: the channel fetched in the transaction, not the caller's)",
 		"a write that is skipped on some success path, or moved out of the transaction, makes the reloaded state a mixture of two transitions", 40,
 		func(o *an.Obl) {
 			for _, tx := range txs {
@@ -81,11 +90,10 @@ func commitStoreTransactions(r *an.Run) {
 				o.Site("transaction %s", upd[0].String())
 				cl := theLit(f, kvUpdate, "kvdb.Update")
 				succ := cl.SuccessReturns()
-				notBorked := an.Truth(an.ResultOf(an.CallTo("channeldb.isChannelBorked", nil), 0), false, "!isBorked")
 				for _, wr := range tx.writes {
 					sites := cl.CallsMatching(wr.term, false)
 					mustPass(o, cl, wr.what, sites, an.OkErrNil, succ)
-					guardedAll(o, cl, sites, notBorked)
+					guardedAll(o, cl, sites, tx.gate)
 					if want, ok := c02StoreArgs[tx.fn+"/"+wr.what]; ok {
 						for _, s := range sites {
 							c02ArgsAre(o, cl, s, wr.what, want)
@@ -209,7 +217,7 @@ func commitStoreTransactions(r *an.Run) {
 // are parameters of the transition; the promoted remote commitment is the one
 // of the diff read under commitDiffKey in the same transaction).
 var c02StoreArgs = map[string]map[int]string{
-	"channeldb.ChannelStateDB.UpdateChannelCommitment/putChanInfo":              {1: `^\$p0$`},
+	"channeldb.ChannelStateDB.UpdateChannelCommitment/putChanInfo":              {0: `^channeldb\.fetchChanBucketRw\(\$lit\.p0, `, 1: c02DiskCopyOfUpdate},
 	"channeldb.ChannelStateDB.UpdateChannelCommitment/putChanCommitment":        {1: `^\$p1$`},
 	"channeldb.ChannelStateDB.AppendRemoteCommitChain/AckAddHtlcs":              {1: `^\$p1\.AddAcks$`},
 	"channeldb.ChannelStateDB.AppendRemoteCommitChain/AckSettleFails":           {1: `^\$p1\.SettleFailAcks$`},
@@ -218,6 +226,11 @@ var c02StoreArgs = map[string]map[int]string{
 	"channeldb.ChannelStateDB.AdvanceCommitChainTail/putRevocationLog":          {1: `^&\$p0\.RemoteCommitment$`, 2: `^\$p3$`, 3: `^\$p4$`},
 	"channeldb.ChannelStateDB.AdvanceCommitChainTail/AddFwdPkg":                 {1: `^\$p1$`},
 }
+
+// c02DiskCopyOfUpdate: the canonical form of the channel UpdateChannelCommitment
+// reads back inside its transaction (from the bucket of the caller's channel,
+// under the caller's funding outpoint).
+const c02DiskCopyOfUpdate = `^channeldb\.fetchOpenChannel\(channeldb\.fetchChanBucketRw\(\$lit\.p0, \$p0\.IdentityPub, &\$p0\.FundingOutpoint, \$p0\.ChainHash\), &\$p0\.FundingOutpoint\)$`
 
 // c02StorePayloads: what each transition serializes under the keys it writes
 // directly (the lists filtered inside the transaction are the elements of the
